@@ -247,7 +247,7 @@ pub fn all() -> Vec<Prop> {
             id: "C10",
             level: "exploration",
             rule: "message level (E1): one evaluation = one simulated cluster execution in which Byzantine validators send well-signed consensus messages including absurd field values; a panic anywhere in code under test is a violation; non-trivial = at least one Byzantine message was delivered and at least one block committed; distinct = distinct event-log fingerprint",
-            batches: |t| bft_batches(&[("faultfree", 16), ("byzheavy", 160), ("stops", 120)], &[("faultfree", 100), ("byzheavy", 4000), ("stops", 3000)], t),
+            batches: |t| bft_batches(&[("faultfree", 16), ("byzheavy", 160), ("stops", 200)], &[("faultfree", 100), ("byzheavy", 4000), ("stops", 3000)], t),
             expected_probes: || vec![],
             components: bft_components,
             assumptions: bft_assumptions,
@@ -277,6 +277,16 @@ fn bft_case(mode: &str, seed: u64) -> (bft::Cfg, Vec<bft::Action>, bft::RunOpts)
     }
     let stops = mode == "stops";
     if stops {
+        // Persistence lag: a replica waiting for `wait_until_persisted` is the place where a
+        // cancellation and a wake-up can coincide.
+        if seed % 10 < 7 {
+            cfg.persist_now = false;
+        }
+        // Newest-ready-first scheduling lets a cancellation cascade overtake a task that was
+        // woken earlier (what a busy multi-threaded runtime does to an unlucky task).
+        if seed % 4 != 0 {
+            cfg.policy = crate::kit::Policy::Lifo(80 + (seed % 19) as u8);
+        }
         cfg.faults.short_steps = cfg.faults.short_steps.max(25);
         cfg.faults.crash = 0;
         cfg.faults.crash_in_write = 0;
@@ -298,11 +308,30 @@ fn bft_case(mode: &str, seed: u64) -> (bft::Cfg, Vec<bft::Action>, bft::RunOpts)
         let mut rng = crate::kit::stream(seed, "stops");
         let n = cfg.weights.len() as u32;
         for _ in 0..rand::Rng::gen_range(&mut rng, 3..9) {
-            let at = rand::Rng::gen_range(&mut rng, 0..plan.len().max(1));
-            let node = rand::Rng::gen_range(&mut rng, 0..n);
-            plan.insert(at, bft::Action::Stop { node });
-            plan.insert(at + 1, bft::Action::Run { steps: rand::Rng::gen_range(&mut rng, 1..6) });
-            let back = (at + 2 + rand::Rng::gen_range(&mut rng, 2..40)).min(plan.len());
+            // The stop lands a few task steps after a delivery, i.e. while messages are being
+            // processed and wake-ups are pending.
+            let mut at = rand::Rng::gen_range(&mut rng, 0..plan.len().max(1));
+            let want_persist = rand::Rng::gen_bool(&mut rng, 0.6);
+            while at + 1 < plan.len()
+                && !(matches!(plan[at], bft::Action::Persist { .. })
+                    || (!want_persist && matches!(plan[at], bft::Action::Deliver { .. } | bft::Action::DeliverTo { .. })))
+            {
+                at += 1;
+            }
+            if at + 1 >= plan.len() {
+                continue;
+            }
+            if let bft::Action::Run { steps } = &mut plan[at + 1] {
+                *steps = rand::Rng::gen_range(&mut rng, 1..14);
+            }
+            let node = match &plan[at] {
+                bft::Action::Persist { node } if *node < n => *node,
+                bft::Action::DeliverTo { to, .. } if rand::Rng::gen_bool(&mut rng, 0.7) => *to,
+                _ => rand::Rng::gen_range(&mut rng, 0..n),
+            };
+            plan.insert(at + 2, bft::Action::Stop { node });
+            plan.insert(at + 3, bft::Action::Run { steps: 0 });
+            let back = (at + 4 + rand::Rng::gen_range(&mut rng, 2..40)).min(plan.len());
             plan.insert(back, bft::Action::Restart { node });
         }
     }
